@@ -37,6 +37,7 @@ def sigs():
         Sg("hassubset:S", (LS, LS), B, c("hassubset")),
         Sg("concat:L", (LI, LI), "LX", c("concat")), Sg("substring:L2", (LI, I), "LX", c("substring")), Sg("substring:L3", (LI, I, I), "LX", c("substring")),
         Sg("length:LX", ("LX",), I, c("length")), Sg("hassubset:X", ("LX", LI), B, c("hassubset")), Sg("concat:LX", ("LX", LI), "LX", c("concat")),
+        Sg("concat:LXLX", ("LX", "LX"), "LX", c("concat")), Sg("concat:LLX", (LI, "LX"), "LX", c("concat")), Sg("substring:LX2", ("LX", I), "LX", c("substring")),
         Sg("length:L", (LI,), I, c("length")), Sg("length:LS", (LS,), I, c("length")),
         Sg("contains:L", (LI, I), B, c("contains")), Sg("indexof:L", (LS, S), I, c("indexof")),
         Sg("startswith:L", (LI, LI), B, c("startswith")), Sg("endswith:L", (LI, LI), B, c("endswith")),
@@ -180,6 +181,26 @@ def typecheck_layer(ctx):
                                       {"text": text, "backend": bname, "literal_kind": kind, "error": repr(e)[:150], "check": "typecheck"})
 
 
+def history_layer(ctx):
+    """serial, ONE process: all terms with <=2 constructors of every type plus the k=3 concat/substring terms (string and list
+    flavours have the same outer shape), forward and then in reverse order - inference must not depend on what was inferred before"""
+    en = enum()
+    seq = []
+    for ty in TYPES:
+        seq += [(t, ty) for t in en.terms(ty, 1)]
+    for ty in (S, "LX", LI):        # the argument-derived return types (concat, substring) live here
+        seq += [(t, ty) for t in en.terms(ty, 2)]
+    for ty in (S, "LX"):
+        for si, sig in enumerate(en.sigs):
+            if sig.ret == ty and sig.name.split(":")[0] in ("concat", "substring", "substring2", "substring3"):
+                seq += [(t, ty) for t in en.apply(sig, 3)]
+    # interleave the string and list flavours so that equal outer shapes meet in both orders
+    seq.sort(key=lambda it: (to_odata(it[0]).split("(")[0], len(to_odata(it[0])), it[1]))
+    for t, ty in seq + seq[::-1]:
+        check_term(ctx, t, ty)
+    return 2 * len(seq)
+
+
 def run(ctx):
     en = enum()
     kmax = 3
@@ -195,6 +216,8 @@ def run(ctx):
             units = [(ty, k, si, split) for si, split in en.work_units(ty, k)]
             ctx.pmap(_unit, units)
     ctx.layer("infer_type", k_max=kmax, terms=int(ctx.counts["states"]), builtin_functions=33, exhaustive=True)
+    nh = history_layer(ctx)
+    ctx.layer("history-forward-reverse", terms=nh, exhaustive=True)
     typecheck_layer(ctx)
     ctx.layer("typecheck", functions=3, positions=2, literal_kinds=len(LITERALS), backends=4, exhaustive=True)
 
